@@ -12,6 +12,7 @@ import AlgoVerif.Proofs.C11LalrDemo
 import AlgoVerif.Proofs.C11ChainMain
 import AlgoVerif.Proofs.C11TermSLR
 import AlgoVerif.Proofs.C11GroupDemo
+import AlgoVerif.Proofs.C11Hard
 /-!
 # C11 — property theorems
 
@@ -860,3 +861,61 @@ example (e : Expr) : treeToExpr (AlgoVerif.C11.Group.treeOf e) = some e := by
 /-- the hypotheses of `C11_groups_validated` are satisfiable: the levels of the witness grammar (the validator's verdict
 on its three resolved tables is `Group.gExpr_opTable`, by kernel evaluation) -/
 example : AlgoVerif.C11.Group.LevelsFor ["+", "*", "^"] exprLevels := AlgoVerif.C11.Group.exprLevels_for
+
+/-! ## 15. Statements added with the hardening round (`Proofs/C11Hard.lean`)
+
+The Model grew in two places.
+
+(a) `augStart` now follows `AddNewNonTerminal` for start symbols that already end in the primes `augment` appends: the
+suffixes are trimmed first (one after the other, in the order of `primeSuffixes`: `S′ ↦ S`, `S″′ ↦ S`, `S′″ ↦ S′`) and
+the first of `base′ base″ base‴ base⁗` that is not a non-terminal yet is taken.  The assumption "the start symbol does
+not end in a prime" of the earlier rounds is gone; every theorem above holds for the new definition unchanged
+(`C11_never_panics*` keep the hypothesis `augStart g ≠ none`, which `C11_augStart_none_iff` turns into "one of the four
+candidates is free").
+
+(b) The line protocol has a `parsefail` op (the lexer returns an error that is not `io.EOF` when asked for token number
+`k`); its Model is the driver run on `w.take k ++ [bad]` for a token `bad` no table has a column for.
+`C11_lexer_failure_never_accepts` is the statement behind it: on any table whose `accept` entries sit in the endmarker
+column only (`SoundTable.acceptOK`: every built table, resolved or not), such a run never accepts — it rejects at a token
+index `≤ k` (at `k`: the lexer's own error, printed without a position) or, on a table that makes the driver loop, runs out
+of fuel. -/
+
+/-- the new start symbol is fresh, and it is the FIRST free one of the candidates `base′ base″ base‴ base⁗` -/
+theorem C11_augStart_spec (g : SGrammar) (s' : String) :
+    augStart g = some s' ↔
+      s' ∉ g.nonterms ∧ ∃ before after, AlgoVerif.C11.Hard.augCandidates g = before ++ s' :: after ∧
+        ∀ n ∈ before, n ∈ g.nonterms :=
+  AlgoVerif.C11.Hard.augStart_some_iff g s'
+
+/-- `augment` panics (its only panic point) exactly when all four candidates are taken -/
+theorem C11_augStart_none_iff (g : SGrammar) :
+    augStart g = none ↔ ∀ n ∈ AlgoVerif.C11.Hard.augCandidates g, n ∈ g.nonterms :=
+  AlgoVerif.C11.Hard.augStart_none_iff g
+
+/-- the base name, on start symbols that end in primes (what `strings.TrimSuffix` in a loop over the suffixes gives), and
+the candidate chosen when earlier ones are taken -/
+example :
+    augBase { terms := [], nonterms := ["S′"], prods := [], start := "S′" } = "S" ∧
+    augBase { terms := [], nonterms := ["S″′"], prods := [], start := "S″′" } = "S" ∧
+    augBase { terms := [], nonterms := ["S′″"], prods := [], start := "S′″" } = "S′" ∧
+    augBase { terms := [], nonterms := ["′"], prods := [], start := "′" } = "" ∧
+    augStart { terms := ["a"], nonterms := ["S′", "S", "S″"], prods := [], start := "S′" } = some "S‴" ∧
+    augStart { terms := ["a"], nonterms := ["S", "S′", "S″", "S‴", "S⁗"], prods := [], start := "S" } = none := by
+  decide
+
+/-- a failing lexer never leads to acceptance: on a table with `accept` in the endmarker column only, the driver run on
+`pre ++ [bad]` (`bad`: a token without a column — the lexer's error after `pre`) does not accept, for any fuel; it
+diverges (a looping table) or rejects at a token index `≤ |pre|` -/
+theorem C11_lexer_failure_never_accepts (T : Tbl) (pre : List String) (bad : String)
+    (hbad : ∀ s, T.cell s bad = [])
+    (hacc : ∀ s a, Action.accept ∈ T.cell s a → a = endmarker)
+    (hpre : endmarker ∉ pre) (fuel : Nat) :
+    parse T fuel (pre ++ [bad]) = .diverge ∨ ∃ i, parse T fuel (pre ++ [bad]) = .ok (.reject i) ∧ i ≤ pre.length :=
+  AlgoVerif.C11.Hard.prun_lexInv hbad hacc fuel (AlgoVerif.C11.Hard.lexInv_init pre bad hpre)
+
+/-- the hypotheses are satisfiable on a table that does accept sentences: the LALR table of `S → a S | a a a` (the D17
+witness) accepts `a a a`, and rejects `a a a` cut short by a lexer failure after the second token at index 2 -/
+example :
+    acceptsWith .lalr g17 ["a", "a", "a"] = some true ∧
+    acceptsWith .lalr g17 (["a", "a"] ++ ["\x00lexer-error"]) = some false := by
+  decide
